@@ -370,15 +370,21 @@ func c09Program(c *core.Ctx, i int64, src []byte, name, tag string, r *rand.Rand
 	// Load into a Prog that already holds another program (with a longer line table)
 	{
 		var out2, lg2 bytes.Buffer
-		other := strings.Repeat("\n", 40+len(src)) + "print 12345\n"
+		other := strings.Repeat("\n", 40+len(src)) + "print 12345\nprint 1/0\n"
 		if ep, err := bcl.Parse([]byte(other), "earlier", bcl.OptOutput(&out2), bcl.OptLogger(&lg2), bcl.OptDisasm(true)); err == nil {
 			// the earlier program is disassembled, executed and traced before the Prog is reused
-			protect(func() { bcl.Execute(ep, bcl.OptTrace(true), bcl.OptStats(true)) })
+			var keptErr error
+			protect(func() { _, _, keptErr = bcl.Execute(ep, bcl.OptTrace(true), bcl.OptStats(true)) })
+			keptText := fmt.Sprint(keptErr)
 			var lerr error
 			pan, _ := protect(func() { lerr = ep.Load(bytes.NewReader(dump)) })
 			c.Eval(1)
 			if pan != "" || lerr != nil {
 				c.Violation("load-into-existing-prog", fmt.Sprintf("Prog.Load into a Prog that held another program: err=%v panic=%q", lerr, pan), det(nil))
+				return
+			}
+			if now := fmt.Sprint(keptErr); now != keptText {
+				c.Violation("error-text-changes-after-reload", fmt.Sprintf("a runtime error returned earlier reads %q after its Prog was reloaded, it read %q before", now, keptText), det(nil))
 				return
 			}
 			out2.Reset()
